@@ -808,6 +808,12 @@ func wgRunOne(b *BatchResult, prop string, seed, run uint64, p wgParams) {
 	r := newRNG(seed, hashStr("wgsim"), hashStr(prop), run)
 	k := biasKnobs(prop, r, drawKnobs(r))
 	m := genModel(r, k)
+	if r.chance(8) {
+		if fm := fixtureModel(r, false); fm != nil {
+			m = fm
+			b.Mix["fixture_seeded_models"]++
+		}
+	}
 	wl := &wlWG{Variant: "base", Model: m}
 	c := newWGCtx(wl)
 	b.Workloads++
